@@ -531,7 +531,17 @@ DynArray* dyn_array_push_struct(DynArray* arr, const void* struct_ptr, size_t st
     
     assert(arr->elem_size == struct_size && "DynArray: Struct size mismatch");
     
+    /* struct_ptr may point into this array's own store (array_push a (at a i)):
+     * growing reallocs the store, so take a copy of the element first */
+    void* saved = NULL;
     if (arr->length >= arr->capacity) {
+        saved = malloc(struct_size ? struct_size : 1);
+        if (saved == NULL) {
+            fprintf(stderr, "DynArray: Out of memory growing struct array\n");
+            return arr;
+        }
+        memcpy(saved, struct_ptr, struct_size);
+        struct_ptr = saved;
         dyn_array_grow(arr);
     }
     
@@ -539,6 +549,7 @@ DynArray* dyn_array_push_struct(DynArray* arr, const void* struct_ptr, size_t st
     void* dest = (uint8_t*)arr->data + (arr->length * arr->elem_size);
     memcpy(dest, struct_ptr, struct_size);
     arr->length++;
+    free(saved);
     
     return arr;
 }
